@@ -153,4 +153,28 @@ PROPS = {
              "params": {"quick": {"fill": 1, "fill_u0": 0, "fill_u3": 0, "okforms": 2}, "thorough": {"fill": 1}}, "wall": {"thorough": "40m"}},
         ],
     },
+    "C09": {
+        "technique": "bounded symbolic execution of swap!/reset!/deref (through their registered builtins, with an engine model of sync.RWMutex incl. 'a blocked Lock excludes new readers') under symbolic schedules (preemption-bounded, scheduling points at every lock operation; vector-clock race detection on every heap access); per schedule class linearizability is ONE SMT query (z3) over the symbolic initial value, deltas and results; deadlock = no enabled thread",
+        "outside": "more threads/operations/preemptions than the bound; update functions written in lisp (their evaluator interleavings belong to C11); printing an atom; an update function that swaps the very atom being swapped (excluded by the statement); native replay cannot force a schedule: counterexamples are confirmed by repeating the experiment natively under the race detector",
+        "level_note": "trusted: go/ssa, the symgo interpreter, its RWMutex/goroutine/channel models and scheduler (sequentially consistent interleavings at synchronisation operations; DRF-SC), z3; the Go memory model beyond SC is not modelled",
+        "runs": [
+            {"pkg": "./c09", "harness": "Harness_atom", "setup": "Setup", "race": True, "native_timeout": 120, "preemptions": 2,
+             "params": {"quick": {"threads": 2, "ops": 1, "kinds": 7}, "thorough": {"threads": 2, "ops": 2, "kinds": 7}}, "wall": {"thorough": "40m"}},
+            {"pkg": "./c09", "harness": "Harness_atom2", "setup": "Setup", "race": True, "native_timeout": 120, "preemptions": 2,
+             "params": {"quick": {"threads": 2, "ops": 2, "kinds": 3}, "thorough": {"threads": 3, "ops": 1, "kinds": 7}}, "wall": {"quick": "150s", "thorough": "40m"}},
+        ],
+    },
+    "C10": {
+        "technique": "bounded symbolic execution of NewFuture and its goroutine, Future.Deref/Cancel, the status builtins and the real context.WithCancel (sync.Mutex, atomic.Value and channel models) under symbolic schedules (preemption-bounded; scheduling points at lock, channel, select, atomic, go and exit operations); vector-clock race detection on every heap access; observation-based consistency assertions; deadlock = no enabled thread",
+        "outside": "more client threads/operations/preemptions than the bound; a body that panics (C04); plain deref of a future whose body never ends; native replay cannot force a schedule: counterexamples are confirmed by repeating the experiment natively under the race detector; the schedule choices themselves are enumerated by the engine (no data is symbolic here), the solver only decides data-dependent branches",
+        "level_note": "trusted: go/ssa, the symgo interpreter, its mutex/atomic/channel/goroutine models and scheduler (sequentially consistent interleavings at synchronisation operations; DRF-SC); the Go memory model beyond SC is not modelled",
+        "runs": [
+            {"pkg": "./c10", "harness": "Harness_future", "setup": "Setup", "race": True, "native_timeout": 120,
+             "preemptions": {"quick": 1, "thorough": 2},
+             "params": {"quick": {"threads": 2, "ops": 1}, "thorough": {"threads": 2, "ops": 1}}, "wall": {"thorough": "40m"}},
+            {"pkg": "./c10", "harness": "Harness_future2", "setup": "Setup", "race": True, "native_timeout": 120,
+             "preemptions": {"quick": 1, "thorough": 1},
+             "params": {"quick": {"threads": 2, "ops": 2}, "thorough": {"threads": 2, "ops": 2}}, "wall": {"quick": "100s", "thorough": "40m"}},
+        ],
+    },
 }
